@@ -8,8 +8,10 @@ TIER="${1:-quick}"
 REPO="${REPO_DIR:-/repo}"; VERIF="${VERIF:-/verif}"
 cd "$REPO" || exit 2
 fail=0
+# SEEDS_FILTER: extended regex on the seed id (e.g. '^C0[1-6]-'), to split the regression into shards
 for d in "$VERIF"/seeded/*; do
     s=$(basename "$d"); prop=${s%%-*}
+    if [ -n "${SEEDS_FILTER:-}" ] && ! echo "$s" | grep -Eq "$SEEDS_FILTER"; then continue; fi
     props=$(python3 - "$d/meta.json" "$prop" <<'PY'
 import json,re,sys
 m=json.load(open(sys.argv[1])); own=sys.argv[2]
